@@ -400,13 +400,12 @@ func genScripts(rng *rand.Rand, reg *Registry, g int, resolvable func(root [2]st
 	cc := &ConcCase{G: g}
 	for i := 0; i < g; i++ {
 		var sc []Step
-		resolutions := 0
 		for k := 0; k < steps; k++ {
 			h := hot[rng.Intn(len(hot))]
 			switch p := rng.Intn(100); {
 			case p < 25:
 				sc = append(sc, Step{Op: "Requirements", Name: h.name, Version: h.ver})
-			case p < 70:
+			case p < 78:
 				j := rng.Intn(len(h.names))
 				st := Step{Op: ops[rng.Intn(4)], Name: h.names[j], Version: h.vers[j]}
 				st.Req = st.Op == "MatchingVersions"
@@ -417,7 +416,7 @@ func genScripts(rng *rand.Rand, reg *Registry, g int, resolvable func(root [2]st
 					st.Version = "0.0.1" // a requirement the bundled version does not meet
 				}
 				sc = append(sc, st)
-			case p < 88:
+			default:
 				r := roots[rng.Intn(len(roots))]
 				st := Step{Op: ops[rng.Intn(4)], Name: r[0], Version: r[1]}
 				switch rng.Intn(8) {
@@ -431,19 +430,26 @@ func genScripts(rng *rand.Rand, reg *Registry, g int, resolvable func(root [2]st
 					st.Version = uni.Pick(rng, "*", "^"+st.Version, ">=1.0.0", "latest", st.Version)
 				}
 				sc = append(sc, st)
-			default:
-				r := [2]string{h.name, h.ver}
-				if rng.Intn(3) == 0 {
-					r = roots[rng.Intn(len(roots))]
-				}
-				if resolutions >= 2 || !resolvable(r) {
-					continue
-				}
-				resolutions++
-				sc = append(sc, Step{Op: "Resolve", Name: r[0], Version: r[1]})
 			}
 		}
 		cc.Scripts = append(cc.Scripts, sc)
+	}
+	// Whole resolutions: at most two per scenario (each is some tens of client
+	// calls), mostly of a hot bundling version, placed at random positions.
+	for k, n := 0, 1+rng.Intn(2); k < n; k++ {
+		h := hot[rng.Intn(len(hot))]
+		r := [2]string{h.name, h.ver}
+		if rng.Intn(3) == 0 {
+			r = roots[rng.Intn(len(roots))]
+		}
+		if !resolvable(r) {
+			continue
+		}
+		i := rng.Intn(g)
+		at := rng.Intn(len(cc.Scripts[i]) + 1)
+		sc := append([]Step(nil), cc.Scripts[i][:at]...)
+		sc = append(sc, Step{Op: "Resolve", Name: r[0], Version: r[1]})
+		cc.Scripts[i] = append(sc, cc.Scripts[i][at:]...)
 	}
 	return cc
 }
@@ -498,7 +504,7 @@ func runScenario(e *env, cc *ConcCase, budget int64, jit *jitter) (*recorder, []
 }
 
 // judgeScenario applies the value check and the history check to one run.
-func judgeScenario(st *concStats, cs Case, rec *recorder, res []resolutionResult, orc *oracle, bi *bundleInfo) {
+func judgeScenario(st *concStats, cs Case, rec *recorder, res []resolutionResult, orc *oracle, bi *bundleInfo) (order uint64) {
 	cc := cs.Conc
 	var all []record
 	for _, p := range rec.per {
@@ -509,7 +515,8 @@ func judgeScenario(st *concStats, cs Case, rec *recorder, res []resolutionResult
 	for _, rc := range all {
 		fmt.Fprintf(h, "%d|%s|%s\n", rc.G, rc.Op, rc.Key)
 	}
-	st.interleaving(cc.G, h.Sum64())
+	order = h.Sum64()
+	st.interleaving(cc.G, order)
 	st.count(fmt.Sprintf("conc:G=%d:runs", cc.G), 1)
 	st.count("conc:client-calls-recorded", int64(len(all)))
 
@@ -585,6 +592,7 @@ func judgeScenario(st *concStats, cs Case, rec *recorder, res []resolutionResult
 		}
 		st.violation("conc:history-not-linearizable", what, cs)
 	}
+	return order
 }
 
 func clip(s string, n int) string {
@@ -633,7 +641,7 @@ func concurrentWorkload(rng *rand.Rand, scenarios, reps int, st *concStats) {
 			bi := newBundleInfo(reg)
 			resolvable := func(root [2]string) bool {
 				o := orc.resolution(root)
-				return !o.exhausted && o.panicked == ""
+				return !o.exhausted && o.panicked == "" && o.calls <= 400
 			}
 			// A few scenarios per registry.
 			for k := 0; k < 4 && s < scenarios; k++ {
@@ -644,11 +652,15 @@ func concurrentWorkload(rng *rand.Rand, scenarios, reps int, st *concStats) {
 				s++
 				cs := Case{Kind: "conc", Registry: reg, OrderSeed: orderSeed, Conc: cc}
 				st.count(fmt.Sprintf("conc:G=%d:scenarios", g), 1)
+				orders := map[uint64]bool{}
 				for rep := 0; rep < reps; rep++ {
 					e.svc.jitter.Store(true)
 					rec, res := runScenario(e, cc, budget, jit)
 					e.svc.jitter.Store(false)
-					judgeScenario(st, cs, rec, res, orc, bi)
+					orders[judgeScenario(st, cs, rec, res, orc, bi)] = true
+				}
+				if len(orders) > 1 {
+					st.count(fmt.Sprintf("conc:G=%d:scenarios-whose-reruns-interleaved-differently", g), 1)
 				}
 			}
 		}
